@@ -13,6 +13,7 @@ What a theorem can carry here, and what it cannot:
 import Vuego.Model.Lockset
 import Vuego.Generated.Locks
 import Vuego.Generated.Purity
+import Vuego.Generated.Escapes
 import Vuego.Props.C15
 namespace Vuego.Props.C09
 open Vuego.Lockset
@@ -29,6 +30,11 @@ theorem source_lock_discipline : disciplined setupFns Generated.accessTable = tr
 /-- which shared variables are written at all after set-up — exactly the three caches and the once-initialised parse context -/
 theorem source_written_after_setup :
     writtenVars setupFns Generated.accessTable = ["ExprEvaluator.programs", "Vue.templateCache", "helpers.bodyNodeCache", "vuego.pathCache"] := by decide
+
+/-- no package-level map is handed on (passed as an argument, assigned elsewhere, returned, put in a literal): such a map is one object
+    shared by every render in the process, and its receiver may write through it - the scope stack clears and recycles every map it is
+    given, which the table of direct accesses above cannot see. (Read from the source: every use of a package-level map in a function body.) -/
+theorem source_no_package_map_escapes : Generated.escapingPackageRefs = [] := by decide
 
 /-- the per-render copies that keep aliased data out of reach of other renders (see C10) -/
 theorem source_copies_before_evaluation : Generated.evaluatesDeepClone = true ∧ Generated.callerDataCopied = true := by decide
